@@ -533,6 +533,13 @@ class EIG(BaseRoutine):
         system.j_update(system.exist.pflow_tds)
 
         self.calc_As()
+
+        if not np.all(np.isfinite(np.array(self.As))):
+            logger.error("State matrix contains inf or NaN. The algebraic Jacobian is singular "
+                         "for the current operating point.")
+            system.exit_code += 1
+            return False
+
         self.mu, self.pfactors, self.N, self.W = self.calc_pfactor()
         self._store_stats()
         t2, s = elapsed(t1)
